@@ -335,6 +335,34 @@ def report(ctx, verdicts, reported):
     ctx.violation(kind, rec, no_input=(kind == "correspondence-broken"))
 
 
+def translator_obligations(ctx):
+  """Regenerate the translation of preconditioning_compute_steps_schedule from /repo and re-prove it
+  equal to C04.Ref (linked to sched_interval by c04_schedule_source_is_model)."""
+  from tools import targets
+  text, errors = targets.generate_c04(common.REPO)
+  ctx.cov["obligations"] += 2
+  if errors:
+    ctx.proof_failure("translate distributed_shampoo.preconditioning_compute_steps_schedule",
+                      json.dumps(errors))
+    return
+  ok, out = ctx.gen_obligation("Gen", text)
+  if not ok:
+    ctx.proof_failure("compile gen/C04/Gen.v (translation of the schedule function)", out[-2000:])
+    return
+  ctx.cov["discharged"] += 1
+  fn = targets.SCHEDULE
+  names = " ".join(n for n, _ in fn.params)
+  ob = ("From Precond Require Import Base.PyLib Base.QMat Base.PyFloat.\nFrom Precond Require C04.Ref.\n"
+        "From PrecondGen Require C04.Gen.\n"
+        "Lemma gen_eq_%s : forall %s, C04.Gen.%s %s = C04.Ref.%s %s.\nProof. intros. reflexivity. Qed.\n"
+        % (fn.name, names, fn.name, names, fn.name, names))
+  ok, out = ctx.gen_obligation("GenEq_" + fn.name, ob)
+  if ok:
+    ctx.cov["discharged"] += 1
+  else:
+    ctx.proof_failure("GenEq_%s (Gen = Ref)" % fn.name, out[-2000:])
+
+
 def run(ctx):
   ctx.cov["rule"] = (
       "schedules (s, p, start) from the grid [1..4]x[1..5]x[0..6] (quick: fixed core of coprime / "
@@ -354,6 +382,7 @@ def run(ctx):
       "expression is exact and equals the model's integer formula",
       "lax.cond / while_loop / jit are observed, not modelled"]
   ctx.proofs(["Properties/C04.v"])
+  translator_obligations(ctx)
   stats = new_stats()
   reported = set()
   cdir = os.path.join(common.VERIF, "corpus", "C04")
